@@ -179,6 +179,8 @@ class Evaluator:
             self.assign(st.target, self.binop(st.op, cur, v, st), env, f)
         elif isinstance(st, ast.For):
             it = self.expr(st.iter, env, f, depth)
+            if isinstance(it, dict):
+                it = tuple(it)
             if not isinstance(it, (tuple, list)):
                 raise AnalysisError("loop over a non-concrete sequence in %s" % f.loc(st))
             for x in it:
@@ -370,6 +372,8 @@ class Evaluator:
         if isinstance(fn, ast.Name):
             if fn.id == "len" and args and isinstance(args[0], (list, tuple, str, dict)):
                 return len(args[0])
+            if fn.id == "abs" and args and isinstance(args[0], (int, float)):
+                return abs(args[0])
             if fn.id == "str" and args:
                 a = args[0]
                 return str(a) if isinstance(a, (int, float, str)) else Cat([a])
@@ -387,9 +391,11 @@ class Evaluator:
             if fn.id == "isinstance":
                 return self.decide(e)
         if isinstance(fn, ast.Attribute):
-            recv_name = fn.value.id if isinstance(fn.value, ast.Name) else None
+            recv_name = fn.value.id if isinstance(fn.value, ast.Name) else ast.unparse(fn.value)
             if recv_name in env and isinstance(env[recv_name], dict) and (fn.attr + "()") in env[recv_name]:
                 return env[recv_name][fn.attr + "()"]
+            if recv_name in env and hasattr(env[recv_name], "items_") and fn.attr == "get" and args and isinstance(args[0], int):
+                return env[recv_name].items_[args[0]]
             if fn.attr in self.watch:
                 self.effects.append((fn.attr,) + tuple(freeze(a) for a in args))
                 return None
